@@ -140,13 +140,23 @@ def census(chk, units, executed):
                     "write to invariant-carrying member %s (%s) in a function that is neither region-evaluated, nor a "
                     "defaulted whole-object transfer, nor an element-value write" % (st["field"], st["how"]),
                     witness=dict(instantiation=f.qn))
-    # Grid must have no usable move operations (a moved-from shared_ptr would be null)
+    grid_move(chk, units, rule)
+    return n_ok
+
+
+def grid_move(chk, units, rule="R-INV.gridmove"):
+    """Grid must have no usable move operation (a moved-from shared_ptr would be null: every accessor of a
+    moved-from grid would dereference a null pointer)."""
+    chk.rule(rule, chk.rules.get(rule, {}).get("text") or
+             "Grid has no usable move constructor / move assignment (a moved-from grid would hold a null data pointer)")
+    n_ok = 0
     for u in units:
         for d in u.decls.values():
             if d["k"] == "fn" and d.get("recqn", "").startswith("bspline::support::Grid<") and (
                     d.get("movector") or d.get("moveassign")) and not d.get("dependent"):
                 where = "%s:%d" % (C.rel(d["pfile"]), d["pline"])
                 if d.get("deleted"):
+                    n_ok += 1
                     chk.ok(rule, where, "Grid move operation is deleted", key=("gridmove", d["pline"]))
                 else:
                     chk.bad(rule, where, d["pqn"], "grid-move",
